@@ -102,11 +102,11 @@ def contract(target: str, *, props, args=None, returns=None, requires=None, ensu
     return c
 
 
-def lemma(name: str, *, props, vars: dict, assumes=None, shows=None, note="", uses=()) -> dict:
+def lemma(name: str, *, props, vars: dict, assumes=None, shows=None, note="", uses=(), timeout_ms=None) -> dict:
     """A property-level lemma over contracts: forall vars. /\\assumes => /\\shows."""
     caller = sys._getframe(1).f_globals
     l = dict(name=name, props=list(props), vars=dict(vars), assumes=_named(assumes), shows=_named(shows),
-             note=note, uses=tuple(uses), module=caller.get("__name__"), gl=caller)
+             note=note, uses=tuple(uses), module=caller.get("__name__"), gl=caller, timeout_ms=timeout_ms)
     LEMMAS[name] = l
     return l
 
@@ -126,10 +126,15 @@ def exists(lo, hi, f):
     return any(f(i) for i in range(lo, hi))
 
 
-def opaque(fn):
-    """Spec function whose definition is hidden from callers on unbounded symbolic arguments."""
-    fn.__pyvc_opaque__ = True
-    return fn
+def opaque(ret):
+    """Spec function whose definition is hidden on unbounded symbolic strings (uninterpreted there),
+    evaluated on bounded/concrete ones; `ret` is "int" | "bool" | "str"."""
+
+    def deco(fn):
+        fn.__pyvc_opaque__ = ret
+        return fn
+
+    return deco
 
 
 # ---------------------------------------------------------------------------------------
@@ -165,7 +170,7 @@ def _quant(q):
         v = z3.Int(interp.ctx.fresh_name("q"))
         body = sym.truth_term(interp.ctx, interp.call(f, [SV(v, "int")], {}))
         body = z3.BoolVal(body) if isinstance(body, bool) else body
-        rng = z3.And(v >= sym.zint(lo), v < sym.zint(hi))
+        rng = z3.And(*([v >= sym.zint(lo)] if lo is not None else []), *([v < sym.zint(hi)] if hi is not None else []), z3.BoolVal(True))
         if q == "forall":
             return sym.sbool(z3.ForAll([v], z3.Implies(rng, body)))
         return sym.sbool(z3.Exists([v], z3.And(rng, body)))
@@ -173,11 +178,133 @@ def _quant(q):
     return run
 
 
+def _path_term(interp, p):
+    if isinstance(p, Rec) and p.cls_name == "Path":
+        p = p.fields["s"]
+    return sym.zstr(p)
+
+
+def _p_fs_exists(interp, args, kwargs, env):
+    from . import models
+
+    g = models.fs_state(interp)
+    return sym.sbool(z3.Select(g["fs_exists"], _path_term(interp, args[0])))
+
+
+def _p_fs_read(interp, args, kwargs, env):
+    from . import models
+
+    g = models.fs_state(interp)
+    return sym.sstr(z3.Select(g["fs_content"], _path_term(interp, args[0])))
+
+
+def _p_json_map(interp, args, kwargs, env):
+    from . import models
+
+    return models.json_decode(interp, args[0])
+
+
+def _p_ymd(interp, args, kwargs, env):
+    from . import models
+
+    return models.ymd_of(interp, args[0])
+
+
+def _p_fullmatch(interp, args, kwargs, env):
+    from .regex import to_z3
+
+    pat, s = args
+    s = sym.mk(s)
+    if isinstance(s, str):
+        import re
+
+        return re.fullmatch(pat, s) is not None
+    return sym.sbool(z3.InRe(sym.zstr(s), to_z3(pat)))
+
+
+def _p_map_set(interp, args, kwargs, env):
+    m, k, v = args
+    if isinstance(m, dict):
+        m = sym.dict_to_smap(interp.ctx, m, TStr(), TStr())
+    kt = m.kty.unwrap(interp.ctx, k)
+    return SMap(z3.Store(m.has, kt, True), z3.Store(m.val, kt, m.vty.unwrap(interp.ctx, v)), m.kty, m.vty)
+
+
+def _p_map_get(interp, args, kwargs, env):
+    m, k, d = args
+    if isinstance(m, dict):
+        m = sym.dict_to_smap(interp.ctx, m, TStr(), TStr())
+    kt = m.kty.unwrap(interp.ctx, k)
+    # fork (not ite): the default is usually a literal on which spec functions evaluate concretely
+    if interp.ctx.branch(z3.Select(m.has, kt), "map_get: present"):
+        return sym.mk_elem(m.vty, z3.Select(m.val, kt))
+    return d
+
+
+def _p_today(interp, args, kwargs, env):
+    from . import models
+
+    return models.today(interp)
+
+
 PRIMS = {
     "implies": Prim("implies", _p_implies),
     "forall": Prim("forall", _quant("forall")),
     "exists": Prim("exists", _quant("exists")),
+    "fs_exists": Prim("fs_exists", _p_fs_exists),
+    "fs_read": Prim("fs_read", _p_fs_read),
+    "json_map": Prim("json_map", _p_json_map),
+    "ymd": Prim("ymd", _p_ymd),
+    "fullmatch": Prim("fullmatch", _p_fullmatch),
+    "map_set": Prim("map_set", _p_map_set),
+    "map_get": Prim("map_get", _p_map_get),
+    "today": Prim("today", _p_today),
 }
+
+
+# native counterparts (used when contract files are executed natively: replay, bounded tier)
+def fs_exists(p):
+    import pathlib
+
+    return pathlib.Path(str(p)).exists()
+
+
+def fs_read(p):
+    import pathlib
+
+    return pathlib.Path(str(p)).read_text()
+
+
+def json_map(s):
+    import json
+
+    return json.loads(s)
+
+
+def ymd(d):
+    return d.strftime("%Y%m%d")
+
+
+def fullmatch(pat, s):
+    import re
+
+    return re.fullmatch(pat, s) is not None
+
+
+def map_set(m, k, v):
+    r = dict(m)
+    r[k] = v
+    return r
+
+
+def map_get(m, k, d):
+    return m.get(k, d)
+
+
+def today():
+    import datetime
+
+    return datetime.date.today()
 
 
 # ---------------------------------------------------------------------------------------
